@@ -314,6 +314,8 @@ where
         }
     };
     let (start_fn, fn_caller) = unsafe { onwed_split_fn_once(df) };
+    let fn_caller_ptr = fn_caller;
+    let fn_caller = fn_caller_ptr as usize;
     // We need to double box here because
     // 1. We need to access through a box, because we can't cast into a *mut dyn FnOnce(), because
     // fat pointer.
@@ -329,7 +331,18 @@ where
             MapAdditionalFlags::MAP_ANONYMOUS,
             None,
             0,
-        )?
+        )
+    };
+    let map_ptr = match map_ptr {
+        Ok(map_ptr) => map_ptr,
+        Err(e) => {
+            // No stack, no thread: give back the closure and the shared memory
+            unsafe {
+                drop(Box::from_raw(fn_caller_ptr));
+                tsm.dealloc();
+            }
+            return Err(e.into());
+        }
     };
     // Stack grows downward
     let mut stack = map_ptr + size;
@@ -353,7 +366,7 @@ where
         (*tls).self_addr = tls as usize;
     }
     #[expect(clippy::cast_possible_truncation)]
-    unsafe {
+    let clone_res = unsafe {
         __clone(
             start_fn,
             stack,
@@ -363,7 +376,21 @@ where
             tsm.get_futex().as_ptr() as usize,
             map_ptr,
             stack_sz,
-        );
+        )
+    };
+    if clone_res < 0 {
+        // The thread was never created, nobody else knows about these resources: release them
+        // and report the error instead of handing out a handle that can never be joined.
+        unsafe {
+            drop(Box::from_raw(tls));
+            let _ = rusl::unistd::munmap(map_ptr, NonZeroUsize::new_unchecked(size));
+            drop(Box::from_raw(fn_caller_ptr));
+            tsm.dealloc();
+        }
+        return Err(crate::error::Error::os(
+            "Failed to clone a new thread",
+            rusl::error::Errno::new(-clone_res),
+        ));
     }
     Ok(JoinHandle {
         tsm,
@@ -372,10 +399,10 @@ where
 }
 
 #[inline]
-unsafe fn onwed_split_fn_once<F: FnOnce()>(f: F) -> (usize, usize) {
+unsafe fn onwed_split_fn_once<F: FnOnce()>(f: F) -> (usize, *mut F) {
     let t = start_fn::<F>;
     let d = Box::into_raw(Box::new(f));
-    (t as usize, d as usize)
+    (t as usize, d)
 }
 
 #[repr(C)]
